@@ -123,6 +123,9 @@ def o_split_bars(inp):
         return [("~skip:no-sequences", "")]
     states = inp.get("states") or ["rel"] * len(tracks)
     seqs = [P.seq_in_state(t, st) for t, st in zip(tracks, states)]
+    # what each input holds BEFORE the call, read through a copy (a state built through the absolute view has the canonical order of
+    # simultaneous events, which need not be the order of `t`)
+    held_before = [rel_timed(P.content_of(s)) for s in seqs]
     try:
         tb = Sequence.sequences_split_bars(seqs, meta_track_index=0, quantise_note_lengths=requant)
     except Exception as e:
@@ -131,8 +134,8 @@ def o_split_bars(inp):
             return [("~skip:not-boundary-aligned", "")]
         return [("raises", f"{type(e).__name__}: {e}")]
     fails = []
-    for t, s, st in zip(tracks, seqs, states):
-        if (st == "rel" and [from_real(m) for m in s.rel._messages] != t) or rel_timed(P.content_of(s)) != rel_timed(t):
+    for t, s, st, hb in zip(tracks, seqs, states, held_before):
+        if (st == "rel" and [from_real(m) for m in s.rel._messages] != t) or rel_timed(P.content_of(s)) != hb:
             fails.append(("inputs", "an input sequence changed"))
     counts = {len(b) for b in tb}
     if len(counts) != 1:
@@ -184,6 +187,8 @@ def o_split_bars(inp):
             laid.extend((x + off, m) for x, m in tp)
             off += d
         src, _ = rel_timed(t)
+        if wf_violations(src):
+            continue        # the sounding clauses are about notes: a track with unclosed / orphaned / re-triggered notes has no sounding set to conserve
         a, b_ = sounding(src), sounding(laid)
         if not requant:
             if a != b_:
